@@ -86,6 +86,16 @@ pub fn project_with_cstr(a: &BinArchive, endian: &str) -> Result<Value, String> 
     Ok(p)
 }
 
+
+/// Full observable state: public API plus the pending c-strings through the cfg(mila_verif) hook
+/// `BinArchive::verif_pending_c_strings` (add-only hook in /repo, see MANIFEST.hooks).
+pub fn project_full(a: &BinArchive, endian: &str) -> Value {
+    let mut p = project(a, endian);
+    let cstr: Vec<Value> = a.verif_pending_c_strings().iter().map(|(addr, s)| json!([addr, sj(s)])).collect();
+    p["cstr"] = Value::Array(cstr);
+    p
+}
+
 /// One construction step of an archive (used to vary call order).
 #[derive(Clone, Debug)]
 pub enum Step {
